@@ -14,6 +14,9 @@ Inductive val :=
 | VStruct (fs : list val)
 | VOpaque (id : N).                    (* non-nil interface / func / chan value *)
 
+(* values the identity plan (Basic rule, empty struct) may pass on: they carry no address *)
+Definition plain (v : val) : bool := match v with VBasic _ => true | VStruct [] => true | _ => false end.
+
 (* address reserved for "pointer into the interior of the source value" *)
 Definition ALIAS : N := 1.
 
